@@ -180,7 +180,20 @@ func Run(sc *Script) []trace.Event {
 	// end of script: everything must terminate without further input
 	r.gates.releaseAll()
 	deadline := make(chan struct{}) // closed (not a one-shot timer value): several calls may be hung
-	time.AfterFunc(Watchdog, func() { close(deadline) })
+	wd := Watchdog
+	if sc.Cfg.Net == "real" {
+		// every request the broker never answers (or that stalls in its write phase) costs one write timeout, per attempt
+		slow := 0
+		for _, seq := range sc.Outcomes {
+			for _, o := range seq {
+				if o == "ackNever" || o == "okStall" {
+					slow++
+				}
+			}
+		}
+		wd += time.Duration(slow*sc.Cfg.WriteTimeoutMs) * time.Millisecond
+	}
+	time.AfterFunc(wd, func() { close(deadline) })
 	for c, cs := range calls {
 		if sc.Cfg.Async {
 			// asynchronous calls return at once by contract
